@@ -102,7 +102,7 @@ func init() {
 			panic(pathEnd{kind: "assumefalse"})
 		}
 		d := 0
-		if n > 1 {
+		if n > 1 || in.concreteMode {
 			d = in.decide(n, nil)
 		}
 		in.inputs = append(in.inputs, inputRec{kind: "choice", val: d, src: "vrt"})
